@@ -9,6 +9,7 @@ import (
 	"reflect"
 	"sort"
 	"strings"
+	"time"
 
 	flags "github.com/jessevdk/go-flags"
 )
@@ -164,6 +165,7 @@ func c15Run(c *Ctx) {
 		return
 	}
 	var eval c15Eval
+	manDate := ""
 	maps := 0
 	detail := ""
 	switch kind {
@@ -178,6 +180,13 @@ func c15Run(c *Ctx) {
 			return fmt.Sprint(err), nil
 		}
 	case "man-page":
+		// the page is dated by SOURCE_DATE_EPOCH - whatever its value, 0 included
+		epoch := []int64{0, 1, 86399, 31536000, 1500000000, 1700000000}[r.Intn(6)]
+		if c.W.Tier != "race" {
+			os.Setenv("SOURCE_DATE_EPOCH", fmt.Sprint(epoch))
+			c.Defer(func() { os.Setenv("SOURCE_DATE_EPOCH", "1700000000") })
+			manDate = time.Unix(epoch, 0).Format("2 January 2006")
+		}
 		eval = func() (string, error) {
 			d, b := mk()
 			maps = c15Populate(&Rand{s: seedP}, d)
@@ -451,6 +460,10 @@ func c15Run(c *Ctx) {
 			ord += fmt.Sprint(k)
 		}
 		canary[ord] = true
+	}
+	if manDate != "" && !strings.Contains(strings.SplitN(first, "\n", 2)[0], "\""+manDate+"\"") {
+		c.Violate("man-page:date", "SOURCE_DATE_EPOCH denotes %q, the title line of the man page is %q", manDate, strings.SplitN(first, "\n", 2)[0])
+		return
 	}
 	if kind == "duplicate-flag-message" && first == "" {
 		return // no clash could be built into this declaration
